@@ -237,6 +237,11 @@ func hostile(run *ev.Run, dir string) {
 		"stall":    {Status: 200, StallMS: 300, Body: randBytes(r, 32)},
 	}
 	otherNames := []string{"404", "random", "zerotile", "empty", "5MiB", "500", "stall"}
+	// well-formed proof JSON for the Rekor feeder (its other requests are proof requests)
+	hx := func(n int) string { return fmt.Sprintf("%x", randBytes(r, n)) }
+	others["json_proof"] = resp{Status: 200, Body: []byte(`{"hashes":["` + hx(32) + `","` + hx(32) + `","` + hx(32) + `"]}`)}
+	others["json_empty_proof"] = resp{Status: 200, Body: []byte(`{"hashes":[]}`)}
+	others["json_odd_proof"] = resp{Status: 200, Body: []byte(`{"hashes":["` + hx(5) + `","zz",""]}`)}
 	for fi, feeder := range []string{"serverless", "sumdb", "pixel", "rekor", "tiles"} {
 		u := gen.NewUniverse(r, gen.Opts{NLogs: 1, MaxSize: 20, Branches: 1})
 		l := u.Logs[0]
@@ -292,6 +297,9 @@ func hostile(run *ev.Run, dir string) {
 					ons = []string{otherNames[(len(cases)+fi)%len(otherNames)]}
 				} else if !run.Thorough() {
 					ons = []string{"404", "random", "zerotile"}
+				}
+				if feeder == "rekor" && f.slow && holds != nil {
+					ons = append(append([]string{}, ons...), "json_proof", "json_empty_proof", "json_odd_proof")
 				}
 				for _, on := range ons {
 					h := "nothing"
